@@ -21,7 +21,10 @@ var c12LongName = strings.Repeat("l", 63) + "." + strings.Repeat("m", 63) + "." 
 var aPool = []string{"1.2.3.4", "8.8.8.8", "93.184.216.34", "5.6.7.8", "11.22.33.44"}
 var aaaaPool = []string{"2a01:4f0:1:2::3", "2001:4860:4860::1111", "2a02:6b0::5", "2607:f0d0:1002:51::4"}
 
-func (e *env) cnamePool() []string { return c12Names }
+// aliases: the names of the pool, now and then a registered TLD, a name nobody registered, an unknown single label
+func (e *env) cnamePool() []string {
+	return append(append([]string{}, c12Names...), "com", "com", "nobody.com", "org")
+}
 
 func (e *env) dataFor(typ int) string {
 	r := e.b.Rng
@@ -49,7 +52,16 @@ func (m *model) modelResolve(name string, typ int, now int64) ([]string, string)
 		}
 		cur = strings.TrimSuffix(cur, ".")
 		if len(labels(cur)) < 2 {
-			return nil, "fail"
+			if links == 0 {
+				return nil, "fail" // the queried name must not be a TLD
+			}
+			// an alias may be any well-formed name, a single label too: a registered TLD then contributes its own records
+			// (its SOA) and ends the chain, anything else is not found (seeded change C12-11: the queried name's TLD test
+			// applied to every link)
+			if !m.alive(cur, now) {
+				return nil, "fail"
+			}
+			return append(res, m.recs[rkey(cur, cur, typ)]...), "ok"
 		}
 		token := m.tokenOf(cur, now)
 		if !m.tokenUsable(token, now) {
